@@ -8,6 +8,9 @@
 From Coq Require Import ZArith List.
 From PV.Spec Require Import FsSpec.
 From PV.Proofs Require Import FsSpecProofs.
+From PV.Spec Require FsCases.
+From PV.Model Require AccountNs.
+From PV.Proofs Require AccountLinksLemmas AccountNsLemmas AccountNsInv AccountNsProofs AccountNsRefineLemmas AccountNsRefineTree AccountNsRefine AccountNsRefineRun.
 Import ListNotations.
 Local Open Scope Z_scope.
 
@@ -34,3 +37,63 @@ Theorem C01_nonvacuous :
   f_iso (fst (run empty_fs [AddDir (Some ([1], 0)) None (Some [2]); AddFp 7 (Some ([1; 3], 0)) None (Some [2; 4]);
                             RmFile NsUdf [2; 4]])) = [mk [1] KDir 0].
 Proof. split; vm_compute; reflexivity. Qed.
+
+(* ---- for the ISO9660 + Joliet fragment the object graph REFINES the specification: Model/AccountNs.v --------------
+   A state machine of pycdlib's object graph for images with the ISO9660 (level 3, no Rock Ridge) and Joliet namespaces:
+   two directory trees sharing inodes, both volume sizes and path-table trackers, and the six edits add_fp /
+   add_directory / add_hard_link / rm_hard_link / rm_file / rm_directory within and across the namespaces, with the
+   library's early refusals (nothing changes) and its LATE refusals (the ISO9660 half of a two-namespace call stays
+   behind: the C14 known findings, modelled as the code behaves).  Tied to /repo by accountnsleaf.py: outcome, counters,
+   layout end and the API VIEW of both hierarchies after EVERY operation of random histories.
+   Proved: a simulation between this machine and Spec/FsSpec.v (abs : object graph -> specification state, tr : edit ->
+   specification edit): for every history without a late refusal the API view of the object graph IS the view of the
+   specification (up to the order of entries), accepted/refused agree edit by edit, and the declared sizes equal the end
+   of the layout.  So for this fragment "the image shows exactly what the sequence of edits implies" is a theorem about
+   a model that is compared with the library after every edit -- not a sample of final views. *)
+Section AccountNsStatements.
+Import Bool Permutation Prim Account AccountLinks AccountLinksLemmas AccountNs AccountNsLemmas AccountNsInv AccountNsProofs
+       AccountNsRefineLemmas AccountNsRefineTree AccountNsRefine AccountNsRefineRun.
+
+Theorem C01_object_graph_refines_the_specification : forall ops,
+  forallb bytes_op ops = true -> clean ops = true ->
+  let a := fst (F.run F.empty_fs (tr_ops ops)) in
+  Permutation (F.f_iso (abs (nrun ops))) (F.f_iso a) /\
+  Permutation (F.f_jol (abs (nrun ops))) (F.f_jol a) /\
+  F.f_udf (abs (nrun ops)) = F.f_udf a /\ F.f_boot (abs (nrun ops)) = F.f_boot a /\
+  map nok (nouts ops) = map sok (snd (F.run F.empty_fs (tr_ops ops))).
+Proof. exact AccountNsRefineRun.C01_view_refines_spec. Qed.
+
+Theorem C01_api_view_is_the_specification_view : forall ops tbl udft,
+  forallb bytes_op ops = true -> clean ops = true ->
+  Permutation (FsCases.view_of tbl udft (abs (nrun ops)))
+              (FsCases.view_of tbl udft (fst (F.run F.empty_fs (tr_ops ops)))).
+Proof. exact AccountNsRefineRun.C01_view_eq. Qed.
+
+Theorem C01_simulation_step : forall j k c a o,
+  NInv j c -> Rel c a -> bytes_op o = true ->
+  let r := nstep k c o in
+  let r' := F.step a (tr k o) in
+  (snd r = NOk <-> snd r' = F.Ok) /\ (snd r = NOk -> Rel (fst r) (fst r')).
+Proof. exact AccountNsRefineRun.sim_step. Qed.
+
+Theorem C01_late_refusal_is_spec_refusal_with_leftover : forall j k c a o c',
+  NInv j c -> Rel c a -> bytes_op o = true ->
+  nstep k c o = (c', NLate) -> F.step a (tr k o) = (a, F.Refused) /\ niso c' <> niso c.
+Proof. exact AccountNsRefineRun.C01_late_is_spec_refusal_with_leftover. Qed.
+
+Theorem C01_declared_sizes_exact_two_namespaces : forall ops,
+  clean ops = true ->
+  ispace (nrun ops) = nlayout_end (nrun ops) /\ jspace (nrun ops) = nlayout_end (nrun ops).
+Proof. exact AccountNsProofs.C01_space_exact_two_namespaces. Qed.
+
+Theorem C01_declared_sizes_after_late_refusal_refuted :
+  exists ops, clean ops = false /\ ispace (nrun ops) <> nlayout_end (nrun ops) /\
+              nouts ops = [NLate] /\ ispace (nrun ops) = 30 /\ nlayout_end (nrun ops) = 32 /\
+              ~ (forall i, In i (ids (ninodes (nrun ops))) <->
+                           0 < nrefcount i (niso (nrun ops)) (njol (nrun ops))).
+Proof. exact AccountNsProofs.C01_space_exact_two_namespaces_refuted. Qed.
+
+Theorem C01_early_refusal_changes_nothing_two_namespaces : forall k s o s',
+  nstep k s o = (s', NRefused) -> s' = s.
+Proof. exact AccountNsProofs.nrefused_unchanged. Qed.
+End AccountNsStatements.
